@@ -85,4 +85,6 @@ func Sequence.Release#sequential
   ensures r0 == nil && old(seq.next) <  old(seq.reserved) ==> mark == hw && seq.next >= seq.reserved   -- a clean Release wastes nothing and ends the lease
   ensures r0 == nil && old(seq.next) >= old(seq.reserved) ==> mark == old(mark)
   ensures r0 != nil ==> mark == old(mark)
+  -- a failed Release leaves the lease as it was: it can be retried, nothing of it is given up unrecorded
+  ensures r0 != nil ==> seq.next == old(seq.next) && seq.reserved == old(seq.reserved)
 @*/
